@@ -17,8 +17,8 @@ META = dict(
     technique='TLA+ model of scheduler core + mutex protocol checked exhaustively by TLC; TLC trace validation (linearizability against abstract lock) of executions recorded from the real primitives',
     design='3/C01')
 
-PRIMS_Q = [('cmutex', 1200), ('mutex', 120), ('mutex0', 50), ('mutexc', 50), ('recmutex', 50), ('spin', 30), ('qspin', 30), ('ticket', 30)]
-PRIMS_T = [('cmutex', 30000), ('mutex', 1500), ('mutex0', 500), ('mutexc', 500), ('recmutex', 500), ('spin', 300), ('qspin', 300), ('ticket', 300)]
+PRIMS_Q = [('cmutex', 1200), ('mutex', 120), ('mutex0', 50), ('mutexc', 50), ('recmutex', 50), ('recmutex+p', 150), ('mutex+p', 60), ('mutexc+p', 40), ('spin', 30), ('qspin', 30), ('ticket', 30)]
+PRIMS_T = [('cmutex', 30000), ('mutex', 1500), ('mutex0', 500), ('mutexc', 500), ('recmutex', 500), ('recmutex+p', 3000), ('mutex+p', 1000), ('mutexc+p', 600), ('spin', 300), ('qspin', 300), ('ticket', 300)]
 
 
 def model_check(ctx):
@@ -44,13 +44,18 @@ def run_traces(ctx, prims):
     n_exec = 0
     kinds = {}
     for prim, execs in prims:
-        trace = f'{ctx.out}/{prim}.ndjson'
-        rc, o, e = ctx.run_harness(h, ['--prim', prim, '--execs', execs, '--seed', ctx.seed, '--vcpus', 3, '--threads', 4,
-                                        '--ops', 5, '--out', trace], timeout=900, ok_rcs=(0, 4))
+        # "<prim>+p": the same mode with every thread held for 20-80 us at the end of half of the atomic brackets (right after a
+        # lock word was released / taken), so that what the releaser still does afterwards meets the next owner (--perturb2)
+        extra = ['--perturb2'] if prim.endswith('+p') else []
+        tag = prim.replace('+', '_')
+        prim = prim.split('+')[0]
+        trace = f'{ctx.out}/{tag}.ndjson'
+        rc, o, e = ctx.run_harness(h, ['--prim', prim, '--execs', execs, '--seed', ctx.seed + (17 if extra else 0), '--vcpus', 3, '--threads', 4,
+                                        '--ops', 5, '--out', trace] + extra, timeout=900, ok_rcs=(0, 4))
         if rc == 124:
             raise vtlib.InfraError(f'h_sync --prim {prim} timed out')
         rows = [r for r in vtlib.read_ndjson(trace) if r.get('e') != 'Script']
-        acc, rejs, n = tracecheck.validate(ctx, 'Trace_LockA', 'Trace_LockA.cfg', rows, tagbase=f'lockA_{prim}')
+        acc, rejs, n = tracecheck.validate(ctx, 'Trace_LockA', 'Trace_LockA.cfg', rows, tagbase=f'lockA_{tag}')
         n_exec += n
         for r in rows:
             k = r['e'] + (':' + r['op'] if 'op' in r else '') + (':fail' if r.get('r', 0) != 0 else '')
@@ -58,7 +63,7 @@ def run_traces(ctx, prims):
         if prim == 'mutex' and rows:
             ex = tracecheck.split_execs(rows)
             ctx.samples.append({'recorded_execution': ex[min(3, len(ex) - 1)][:40]})
-        tracecheck.report(ctx, rejs, f'{prim}', name=f'lockA_{prim}')
+        tracecheck.report(ctx, rejs, f'{tag}', name=f'lockA_{tag}')
         total_rej += rejs
     ctx.extra['executions_recorded'] = n_exec
     ctx.extra['event_kinds'] = kinds
